@@ -535,6 +535,13 @@ fn compile_verdict(prog: &Program) -> Result<String, crate::engine::PanicInfo> {
     })
 }
 
+fn replay_text(text: &str) -> Result<(), Failure> {
+    match catch(|| load(&Sources::single(text))) {
+        Ok(_) => Ok(()),
+        Err(p) => Err(Failure::new(p.signature(), format!("compile panicked at {}: {}", p.location, p.message))),
+    }
+}
+
 impl Property for C07 {
     fn id(&self) -> &'static str {
         "C07"
@@ -557,6 +564,11 @@ impl Property for C07 {
          injected unambiguous kind error (8 sorts) must be rejected with InvalidType. evaluations counts unifier runs / compilations. \
          Non-trivial: (a) >= 2 equations sharing a variable; (b) >= 3 declarations and a changed program; (c) all. Distinct by hash of the case."
             .to_owned()
+    }
+    fn replay(&self, case: &Value) -> Option<Result<(), Failure>> {
+        // Saved texts (e.g. the reproduction of a fixed finding): inference must terminate with a verdict.
+        let text = case.get("text")?.as_str()?;
+        Some(replay_text(text))
     }
     fn assumptions(&self) -> Vec<String> {
         vec![
